@@ -110,6 +110,12 @@ func (fc *FnCtx) callStatic(instr ssa.Instruction, fn *ssa.Function, args []Val,
 	}
 	fc.calleesUsed[name] = true
 	if m := libModels[name]; m != nil {
+		if cc, ok := instr.(*ssa.Call); ok {
+			fc.curCall = &cc.Call
+		} else if d, ok := instr.(*ssa.Defer); ok {
+			fc.curCall = &d.Call
+		}
+		defer func() { fc.curCall = nil }()
 		return m(fc, st, args)
 	}
 	con := fc.eng.contractFor(fn)
